@@ -335,6 +335,48 @@ def run(tier, seed, replay):
                                   "jwt-verify %s with key alg %s exits %d on an %s token; the library %s" % (" ".join(sp) or "(no -a)", kalg_, r_, ("HS256", "HS384", "HS512")[i_],
                                   "refuses this (alg, key) pair at setkey" if refused else "returns %s" % verd.get(i_)),
                                   dict(key=os.path.basename(kf), key_alg=kalg_, option=sp, token_alg=("HS256", "HS384", "HS512")[i_], exit=r_))
+    # stdin lines of every length around the read-buffer sizes (BUFSIZ = 8192 and its doublings), each followed by a failing line and, separately,
+    # by a good one: a line is one token, whatever its length
+    def sized_token(total):
+        # an HS token of exactly `total` characters: the payload pad makes up the difference (3 payload bytes = 4 characters)
+        siglen = len(b64(b"\0" * dg().digest_size))
+        for hdr_ in ('{"alg":"%s"}', '{"alg":"%s" }', '{ "alg":"%s" }', '{"alg":"%s","typ":"JWT"}'):
+            htxt = hdr_ % kalg
+            fixed = len(b64(htxt.encode())) + 1 + 1 + siglen
+            want_p = total - fixed
+            if want_p <= 0:
+                return None
+            for nbytes in ((want_p * 3) // 4, (want_p * 3) // 4 + 1):
+                base_ = '{"iss":"sz","p":"'
+                pad = nbytes - len(base_) - 2
+                if pad < 0:
+                    continue
+                tk_ = mk(htxt, base_ + "x" * pad + '"}')
+                if len(tk_) == total:
+                    return tk_
+        return None
+    size_jobs = []
+    for center in (8192, 16384, 32768, 65536):
+        for L_ in range(center - 6, center + 4):
+            tk_ = sized_token(L_)
+            if tk_:
+                size_jobs.append((L_, tk_))
+    rep.count("stdin_exact_length_tokens", len(size_jobs))
+    vf.need(rep, len(size_jobs) >= 38, "could not build tokens of the exact lengths around the read-buffer sizes")
+    def size_job(j):
+        L_, tk_ = j
+        a_ = subprocess.run([T["jwt-verify"], "-q", "-k", hkey, "-"], input=(tk_ + "\nnot.a.token\n").encode(), capture_output=True, env=env)
+        b_ = subprocess.run([T["jwt-verify"], "-q", "-k", hkey, "-"], input=(tk_ + "\n" + good[0] + "\n").encode(), capture_output=True, env=env)
+        c_ = subprocess.run([T["jwt-verify"], "-q", "-k", hkey, "-"], input=(good[0] + "\n" + tk_ + "\nnot.a.token\n" + good[1] + "\n").encode(), capture_output=True, env=env)
+        return L_, a_.returncode, b_.returncode, c_.returncode
+    with ThreadPoolExecutor(vf.NCPU) as ex:
+        for L_, ra, rb, rc_ in ex.map(size_job, size_jobs):
+            rep.evaluations += 3
+            rep.distinct.add(("stdin-exact-length", L_))
+            if ra == 0 or rc_ == 0:
+                rep.violation("jwt-verify-exit0-with-failures:stdin:after-line-of-buffer-length", "a %d-character token line followed by a failing line: exit %d / %d, expected non-zero" % (L_, ra, rc_), dict(length=L_))
+            if rb != 0:
+                rep.violation("jwt-verify-nonzero-without-failures:stdin:line-of-buffer-length", "a valid %d-character token line followed by a valid one: exit %d" % (L_, rb), dict(length=L_))
     # token sizes as argument and on stdin
     for size in ([200, 4000, 8100, 8192, 8300, 12000, 65000] if thorough else [200, 8100, 12000, 40000]):
         rc, out, err = sh([T["jwt-generate"], "-q", "-k", hkey, "-c", "s:pad=" + "p" * size])
